@@ -7,6 +7,9 @@
  * (established by every constructor, preserved by every mutator: both are proved below); operator== compares the
  * storage bytewise, so it is set equality exactly because of this invariant.
  *
+ * Prefixes: `ensures:` = demanded by the C50 statement (union, difference, complement, membership as set operations);
+ * `lemma:` = table lemma of DESIGN 5 C50; `pinned:` = present behaviour of code the statement does not cover.
+ *
  * The RFC definitions in part 1 are written from the RFC texts (ABNF quoted next to each), not from the code. */
 #include <stddef.h>
 
@@ -396,7 +399,7 @@ void h_ctor_chars(void)
 #endif
 
 /* =====================================================================================================
- * 3. Table lemma: every predefined constant equals its RFC definition (part 1) for every byte value.
+ * 3. Table lemma: each predefined constant is compared with its RFC definition (part 1) for every byte value.
  *    cs_table_X evaluates the real initialiser expression of CharacterSet::X through the real constructor.
  * ===================================================================================================== */
 #if defined(T_TABLES)
